@@ -43,4 +43,36 @@ void vp_tg_nested(int n, int do_catch) {
   try { st = (int)outer.wait(); } catch (...) { threw = 1; vp_note(1, 0); }
   vp_wait_result(0, st, threw, vp_cancelled(outer));
 }
+// ---- scenario 4: an exception of the OUTER group while a nested group has work pending: outer task A spawns an inner task (group g1), then
+// a task X of the outer group, and waits for g1: the nested dispatch loop runs X first (top of the pool); if X throws, the outer context is
+// cancelled and the cancellation must reach g1 (bound child: its pending task is cancelled, g1.wait() reports canceled without throwing)
+// and a group g2 created afterwards (inherits the cancellation when it is bound).  Body ids: B = 1, X = 2, g1 task = 10, g2 task = 20.
+void vp_tg_outer_throw(int unused) {
+  tbb::task_group outer;
+  tbb::task_group* po = &outer;
+  int one = 1;
+  outer.run([one] { vp_body(one); });
+  outer.run([po] {
+    {
+      tbb::task_group g1;
+      int a = 10, x = 2;
+      g1.run([a] { vp_body(a); });
+      po->run([x] { vp_body(x); });
+      int st = -1, threw = 0;
+      try { st = (int)g1.wait(); } catch (...) { threw = 1; vp_note(1, 1); }
+      vp_wait_result(1, st, threw, vp_cancelled(g1));
+    }
+    {
+      tbb::task_group g2;
+      int b = 20;
+      g2.run([b] { vp_body(b); });
+      int st = -1, threw = 0;
+      try { st = (int)g2.wait(); } catch (...) { threw = 1; vp_note(1, 2); }
+      vp_wait_result(2, st, threw, vp_cancelled(g2));
+    }
+  });
+  int st = -1, threw = 0;
+  try { st = (int)outer.wait(); } catch (...) { threw = 1; vp_note(1, 0); }
+  vp_wait_result(0, st, threw, vp_cancelled(outer));
+}
 }
